@@ -129,6 +129,18 @@ protected:
     virtual void
     evaluateAVTs(
             StylesheetExecutionContext&         executionContext) const;
+
+    /**
+     * Determine if the attribute sets are to be applied.  They are not
+     * when an xsl:element instruction could not create its element:
+     * ElemUse::startElement() has not been called in that case.
+     *
+     * @param executionContext  context to execute this element
+     * @returns true if there are attribute sets to apply
+     */
+    bool
+    applyAttributeSets(
+            StylesheetExecutionContext&         executionContext) const;
 #else
     /** 
      * Execute and conditionally apply any attribute sets.  To be used
